@@ -263,6 +263,13 @@ def sql_str(s: str) -> str:
     return "'" + s.replace("\\", "\\\\").replace("'", "''") + "'"
 
 
+def dollar_or_quote(rnd, s: str, p: float = 0.4) -> str:
+    """a Snowflake string constant for `s`: `$$…$$` (content verbatim, apostrophes and backslashes included) or single-quoted"""
+    if "$" not in s and rnd.random() < p:
+        return "$$" + s + "$$"
+    return sql_str(s)
+
+
 def parse_expr(sql_expr: str):
     import sqlglot
     tree = sqlglot.parse_one("select " + sql_expr.replace("{v}", "v"), read="snowflake")
@@ -621,7 +628,7 @@ def build(chk):
     p3 = [[a, b, c] for a in SEGS for b in SEGS for c in SEGS]
     paths += rnd.sample(p3, 8 if quick else 120)
     for segs in paths:
-        for use in USES:
+        for use in (USES if not quick or len(segs) == 1 else rnd.sample(USES, 6)):
             styles = ["colon", "getpath", "nested", "brk"]
             ks = rnd.sample(styles, 1 if quick else 2)
             if use in ("bare", "text", "upper") and "brk" not in ks and rnd.random() < 0.5:
@@ -644,6 +651,16 @@ def build(chk):
                 "get_path({v}, '\"0\"')", "get_path({v}, '[0]')"]:
         for use in ("bare", "text", "upper", "isnull", "size"):
             exprs.append(("tg", render_use(rnd, acc, use), "adv:digit-keys"))
+    toc_accs = ["{v}:a", "{v}:a[0]", "{v}:b", "get_path({v}, 'a')", "{v}:S"]
+    for acc in (toc_accs if not quick else toc_accs[:1] + rnd.sample(toc_accs[1:], 1)):
+        for ei, e in enumerate(["trim({x}::int)", "trim({x}::boolean)", "trim(cast({x} as integer))", "trim({x}::bigint)", "trim({x}::smallint)", "trim(({x}::int))", "trim({x}::varchar)", "trim({x}::string)",
+                  "trim({x}::int) = '1'", "trim({x}::boolean) = 'true'", "upper(trim({x}::boolean))", "trim({x}::int)::int + 1"]):
+            if quick and ei >= 2 and rnd.random() < 0.5:
+                continue
+            exprs.append(("tc", e.replace("{x}", acc), "adv:trim-of-cast"))
+    for e in ["trim({v}:n::int)", "trim({v}:f::boolean)", "trim({v}:a.b[0]::int) = '1'", "trim({v}:a.b[3]::boolean) = 'true'", "trim({v}:big::bigint)", "trim({v}:t::int)",
+              "trim({v}:i31::integer) || 'x'", "not trim({v}:f::boolean) = 'false'"]:
+        exprs.append(("tt", e, "adv:trim-of-cast"))
     for e in ["trim(upper({v}:a))", "upper(trim({v}:a))", "{v}:a::varchar::varchar", "upper({v}:a::varchar)",
               "trim({v}:a::varchar)", "lower(upper({v}:a[0]))", "({v}:a)::varchar", "({v}:a[1])", "array_size(({v}:a))"]:
         exprs.append(("tg", e, "adv:nested-functions"))
@@ -654,7 +671,7 @@ def build(chk):
     outers = [":k", ":n", ":b", ":in.k", ":l", ":zz", ":payload", ":l[1]"]
     nuses = ["{x}", "{x}::varchar", "{x}::string", "{x}::int", "{x}::boolean", "upper({x})", "lower({x})", "trim({x})", "{x} is null", "array_size({x})",
              "get_path({i}, '{p}')::varchar", "{x}::varchar = 'x'", "{x}::int + 1", "not {x}::boolean"]
-    for inner in inners:
+    for inner in (inners if not quick else inners[:2] + rnd.sample(inners[2:], 3)):
         for o in (outers if not quick else outers[:3] + rnd.sample(outers[3:], 2)):
             for u in (nuses if not quick else rnd.sample(nuses, 4) + ["{x}::varchar", "{x}"]):
                 x = inner + o
@@ -663,7 +680,7 @@ def build(chk):
                     continue
                 exprs.append(("tn", e, "nested:" + ("two-level" if inner.count("parse_json") > 1 else "one-level")))
     # operator contexts over the typed documents
-    for _ in range(260 if quick else 2000):
+    for _ in range(170 if quick else 2000):
         ty = rnd.choice(["bool", "bool", "bool", "int", "text"])
         sql, _ = gen_ctx(rnd, ty, rnd.randint(1, 3))
         exprs.append(("tt", sql, f"ctx:{ty}"))
@@ -703,15 +720,29 @@ def build(chk):
                     meta.append({"kind": "flatten", "sql": sql, "line": f"json\tflatten\t{enc_json(arr)}\t{mode}", "tag": "flatten:inputs:variant-column:" + mode})
     # the same expressions over a PARSE_JSON literal instead of a column (a sample)
     tbl_idx = [i for i, m in enumerate(meta) if m["kind"] == "tbl"]
-    lit_pick = rnd.sample(tbl_idx, min(len(tbl_idx), 140 if quick else 3000))
+    lit_pick = rnd.sample(tbl_idx, min(len(tbl_idx), 110 if quick else 3000))
     for i in lit_pick:
         m = meta[i]
         docs = tables[m["table"]]
         j = rnd.randrange(len(docs))
-        sql = "select " + m["sql"].replace("{v}", f"parse_json({sql_str(dumps(docs[j]))})")
+        lit_txt = dollar_or_quote(rnd, dumps(docs[j]))
+        sql = "select " + m["sql"].replace("{v}", f"parse_json({lit_txt})")
         tasks.append(("one", sql))
-        meta.append({"kind": "lit", "sql": sql, "doc": docs[j], "E": m["E"], "tag": "literal:" + m["tag"]})
+        meta.append({"kind": "lit", "sql": sql, "doc": docs[j], "E": m["E"], "tag": ("literal-dollar:" if lit_txt.startswith("$$") else "literal:") + m["tag"]})
 
+    # documents with apostrophes / backslashes / quotes written as `$$…$$` constants
+    for d in [{"a": "it's", "b": ["o'clock", "''", "\\'"], "S": "plain"}, ["it's", "x"], {"a": {"b": "l'été d'or"}}, {"a": "it''s"}]:
+        if not all(ord(ch) < 128 for ch in dumps(d)):
+            continue
+        for e in ["{v}:a", "{v}:a::varchar", "upper({v}:a)", "{v}:b[0]::varchar", "{v}:b[1]", "{v}:b[2]::string", "{v}[0]::varchar", "{v}:a.b", "{v}", "array_size({v}:b)",
+                  "{v}:a::varchar = 'it''s'", "trim({v}:a)"]:
+            try:
+                toks = parse_expr(e)
+            except Exception:
+                continue
+            sql = "select " + e.replace("{v}", "parse_json($$" + dumps(d) + "$$)")
+            tasks.append(("one", sql))
+            meta.append({"kind": "lit", "sql": sql, "doc": d, "E": enc_list(toks), "tag": "literal-dollar:apostrophes"})
     small = build_small(chk, rnd, tasks, meta)
     return tables, tasks, meta, small
 
@@ -726,7 +757,7 @@ def build_small(chk, rnd, tasks, meta):
     keys = ["a", "b", "c", "a b", "K"]
     combos = [[]]
     for npairs in (1, 2, 3):
-        for _ in range(35 if quick else 600):
+        for _ in range(22 if quick else 600):
             ks = rnd.sample(keys, npairs)
             combos.append([(k if rnd.random() > 0.08 else None, rnd.choice(vals)) for k in ks])
     for v in vals:
@@ -795,6 +826,21 @@ def build_small(chk, rnd, tasks, meta):
                                    ("select split(?, ?)", ("a b", " "), "a b", " ")]:
         tasks.append(("qmark", sql, params))
         meta.append({"kind": "split", "sql": f"{sql} with parameters {params}", "s": subj, "sep": sep, "pieces": subj.split(sep), "line": None, "tag": "split:bound-parameters"})
+    for s_, sep in [("it's,ok", ","), ("a'b'c", "'"), ("x''y", "'"), ("plain,text", ",")]:
+        for qs, qsep in ((f"$${s_}$$", sql_str(sep)), (f"$${s_}$$", f"$${sep}$$"), (sql_str(s_), f"$${sep}$$")):
+            sql = f"select split({qs}, {qsep})"
+            tasks.append(("one", sql))
+            meta.append({"kind": "split", "sql": sql, "s": s_, "sep": sep, "pieces": s_.split(sep), "line": None, "tag": "split:dollar-quoted"})
+    for k_, v_ in [("it's", "o'clock"), ("k", "''"), ("a'b", "plain")]:
+        for fn in ("object_construct", "object_construct_keep_null"):
+            sql = f"select {fn}($${k_}$$, $${v_}$$, 'n', 1)"
+            tasks.append(("one", sql))
+            meta.append({"kind": "obj", "fn": fn, "sql": sql, "line": "json\tobj\t" + enc_list([f"{enc_str(k_)}=E" + enc_json(v_, sep=","), f"{enc_str('n')}=Ei1"]), "tag": "obj:dollar-quoted"})
+    for d in [["it's", "o'clock"], ["''", "plain"]]:
+        for mode, proj in (("value", "f.value"), ("text", "f.value::varchar")):
+            sql = f"select {proj} from lateral flatten(input => parse_json($${dumps(d)}$$)) f"
+            tasks.append(("rows", sql))
+            meta.append({"kind": "flatten", "sql": sql, "line": f"json\tflatten\t{enc_json(d)}\t{mode}", "tag": "flatten:dollar-quoted:" + mode})
     # multi-character separators: sampled against Python only (outside the Lean model)
     for s, sep in [("a::b::c", "::"), ("abcabc", "bc"), ("aaa", "aa"), ("x", "xyz"), ("", "ab")]:
         sql = f"select split({sql_str(s)}, {sql_str(sep)})"
@@ -803,7 +849,7 @@ def build_small(chk, rnd, tasks, meta):
     # LATERAL FLATTEN
     fl_docs = [[], [1], [3, 1, 2], ["x", ' q"u '], [1, "x", None, True, [1], {"k": "v"}], [None], [[], {}], {"k": 1, "j": "x"}, {}, None,
                ["b", "a", "b"]]
-    fl_docs += [[rnd.choice(LEAVES) for _ in range(rnd.randint(0, 6))] for _ in range(14 if quick else 300)]
+    fl_docs += [[rnd.choice(LEAVES) for _ in range(rnd.randint(0, 6))] for _ in range(4 if quick else 300)]
     for d in fl_docs:
         lit = f"parse_json({sql_str(dumps(d))})"
         for mode, proj in (("value", "f.value"), ("text", "f.value::varchar"), ("index", "f.index")):
@@ -812,11 +858,13 @@ def build_small(chk, rnd, tasks, meta):
                         # the flatten as the FIRST item of FROM (the natural form for literals and computed arrays)
                         f"lateral flatten(input => {lit}) f",
                         f"lateral flatten(input => parse_json({sql_str(dumps({'w': d}))}):w) f"):
+                if quick and rnd.random() < 0.5:
+                    continue
                 sql = f"select {proj} from {src}"
                 tasks.append(("rows", sql))
                 meta.append({"kind": "flatten", "sql": sql, "line": f"json\tflatten\t{enc_json(d)}\t{mode}", "tag": "flatten:" + mode})
     # FLATTEN over inputs that are not a plain path: TRY_PARSE_JSON (literal text, VARCHAR column), ARRAY_CONSTRUCT, OBJECT_CONSTRUCT(..):path, a VARIANT column
-    for d in [[1, "a"], ["x", ' q"u '], [], [3, 1, 2], [[1], {"k": "v"}]]:
+    for d in ([[1, "a"], ["x", ' q"u '], [], [3, 1, 2], [[1], {"k": "v"}]] if not quick else [[1, "a"], ["x", ' q"u '], []]):
         txt = sql_str(dumps(d))
         for mode, proj in (("value", "f.value"), ("text", "f.value::varchar")):
             for src in (f"lateral flatten(input => try_parse_json({txt})) f", f"(select {txt} as s) x, lateral flatten(input => try_parse_json(x.s)) f",
@@ -837,7 +885,7 @@ def build_small(chk, rnd, tasks, meta):
                     m_.update(force_impl="Econv", force_key="C11/flatten-native-string-list")
                 meta.append(m_)
     # spelled-out FLATTEN arguments; empty / missing arrays
-    for d in [[], [1, "x"], None, ["only"], [None]]:
+    for d in ([[], [1, "x"], None, ["only"], [None]] if not quick else [[], [1, "x"], None]):
         for extra, mode in ((", outer => false", "value"), (", outer => true", "outer"), (", recursive => false", "value"), (", mode => 'ARRAY'", "value"),
                             (", outer => false, recursive => false, mode => 'ARRAY'", "value"), (", outer => TRUE, mode => 'ARRAY'", "outer")):
             wrapped = dumps({"w": d, "k": 1})
@@ -852,7 +900,7 @@ def build_small(chk, rnd, tasks, meta):
               "lower(f.value::varchar)", "trim(f.value) = 'padded'", "f.value::varchar = ' padded '", "upper(f.value::varchar) = 'X'", "f.value is null", "f.value",
               "trim(f.value) || '!'", "f.value::int", "f.value::smallint + 1", "not f.value::boolean"]
     farrs = [[" padded ", "x", ' Pad"x ', "MiXed", None, "a\\b"], ["padded"], [], [1, 200, 40000, 3000000000], [True, False, None], [" x ", 5, True, [1], {"k": "v"}]]
-    for arr in farrs:
+    for arr in (farrs if not quick else [farrs[0], farrs[3], farrs[5]]):
         lit = f"parse_json({sql_str(dumps(arr))})"
         for fe in fexprs:
             try:
@@ -860,7 +908,7 @@ def build_small(chk, rnd, tasks, meta):
             except Exception:
                 chk.count("skipped_unparsed:flatexpr")
                 continue
-            for src in (f"lateral flatten(input => {lit}) f", f"(select {lit} as a) s, lateral flatten(input => s.a) f"):
+            for src in (f"lateral flatten(input => {lit}) f", f"(select {lit} as a) s, lateral flatten(input => s.a) f")[: (1 if quick and rnd.random() < 0.7 else 2)]:
                 sql = f"select {fe} from {src}"
                 tasks.append(("rows", sql))
                 meta.append({"kind": "flatexpr", "sql": sql, "arr": arr, "E": enc_list(toks), "tag": "flatten:value-expr", "where": False})
